@@ -17,6 +17,8 @@ The window of and_'s fixed-point test spans n applications (n+1 history entries,
 the input included in the first pass).
 Round 5 (hunt): and_ claims success only after n applications without change
 (repair 97a6f16).
+Round 6: as_penalty measures on a copy (shared with C15.h);
+generate_constraint(join=...) hands every entry to the joiner.
 NOT decided: convergence within maxiter.
 """
 import ast
@@ -258,3 +260,17 @@ def and_success_window_spans_every_member(ctx):
     ctx.check(bool(windows) and all(t_ == want_loop for t_ in windows), 'and_#cycle-window', 'the cycle compares the last n+1 history entries (n applications)',
               'and_ accepts a vector when the last %s history entries agree: that is only n-1 applications, so the member that produced the vector is never asked again'
               % ([T.show(t_)[:40] for t_ in windows][:1]), f, tests[-1][0], statement='cycle window shorter than n+1 entries')
+
+
+@rule('C17.g', min_instances=1)
+def penalties_built_from_constraints_measure_on_a_copy(ctx):
+    """the documented way to feed constraints to the penalty combinators is constraints.as_penalty: the penalty is |c(x) - x| with c applied to a COPY of x (copy(x): a slice is only a view of an ndarray) - measured on the vector itself it is 0 wherever c works in place, so and_ / or_ are zero where their members reject the point and not_ penalises outside the accepted region (shared with C15.h)"""
+    from .c15 import constraint_as_penalty_measures_the_displacement
+    constraint_as_penalty_measures_the_displacement(ctx)
+
+
+@rule('C17.h', min_instances=1)
+def joined_constraints_go_through_the_combinator_whatever_their_number(ctx):
+    """generate_constraint(..., join=and_ / or_) is the documented way to get a fixed-point combination of compiled solvers: every entry - also a single one, also one group of cyclic solvers - is handed to the joiner, so success / failure is still decided by the combinator's own test (a by-pass for "nothing to join" returns a single pass and fires neither onexit nor onfail); reference summary shared with C13.g"""
+    from .c13 import constraint_composition_keeps_every_solver
+    constraint_composition_keeps_every_solver(ctx)
